@@ -130,11 +130,14 @@ def handle (line : String) : String :=
       let (Nd, c) ← c.int?
       let (s2pp, c) ← c.nats? ns
       let s2pp ← allFin? np s2pp
+      let (base, c) ← c.nats? np
+      let base ← allFin? ns base
       let (kq, c) ← readP3s c N
       let (R, c) ← readP3s c ns
       if !c.atEnd then none
-      if h : s2pp.size = ns then
+      if h : s2pp.size = ns ∧ base.size = np then
         let L : Lat np ns N := { s2pp := fun k => s2pp[k.1]'(by omega)
+                                 base := fun j => base[j.1]'(by omega)
                                  kq := fun q => kq.getD q.1 (0, 0, 0)
                                  R := fun k => R.getD k.1 (0, 0, 0)
                                  Nd := Nd }
